@@ -331,7 +331,20 @@ pub fn bg_strategy(k: usize, wild: bool, zeros: bool) -> BoxedStrategy<BgSpec> {
     let dy = (any::<bool>(), dyadic_strategy(k, true, zeros), dyadic_strategy(k, false, zeros))
         .prop_map(move |(w, a, b)| BgSpec::Dyadic(if wild && w { b } else { a }))
         .boxed();
-    prop_oneof![3 => Just(BgSpec::Uniform), 3 => counts, 3 => dy].boxed()
+    // one symbol seen a few times among billions: a non-zero frequency far below f32::EPSILON
+    let tiny = (proptest::collection::vec(1u32..=500, k), 0usize..k, 1u32..=3, 1_000_000_000u32..=4_000_000_000u32)
+        .prop_map(move |(mut c, j, few, many)| {
+            if !wild {
+                c[k - 1] = 0;
+            }
+            let j = if !wild && j == k - 1 { 0 } else { j };
+            let big = (j + 1) % (k - 1);
+            c[big] = many;
+            c[j] = few;
+            BgSpec::Counts(c)
+        })
+        .boxed();
+    prop_oneof![6 => Just(BgSpec::Uniform), 6 => counts, 6 => dy, 1 => tiny].boxed()
 }
 
 // --- scoring matrices --------------------------------------------------------
@@ -540,4 +553,30 @@ pub fn ref_scores_f64(cells: &[Vec<f32>], seq: &[u8]) -> Vec<(f64, f64, bool)> {
             (s, a, inf)
         })
         .collect()
+}
+
+
+/// A striped sequence built through `StripedSequence::new` from a hand-filled matrix instead of striping:
+/// `spare` rows more than ceil(L/C) (position p lives at row p % rows, column p / rows, as `Index` defines),
+/// and every cell that holds no position filled with arbitrary symbols (what `StripedSequence::sample`
+/// leaves there) instead of the wildcard.
+pub fn striped_via_new<A: lightmotif::abc::Alphabet, C: lightmotif::num::PositiveLength>(idx: &[u8], spare: usize, seed: u64) -> lightmotif::seq::StripedSequence<A, C> {
+    use lightmotif::abc::Symbol;
+    let l = idx.len();
+    let c = C::USIZE;
+    let rows = (l + c - 1) / c + spare;
+    let symbols = A::symbols();
+    let mut m = lightmotif::dense::DenseMatrix::<A::Symbol, C>::new(rows);
+    let mut s = seed;
+    for i in 0..rows {
+        for j in 0..c {
+            s = crate::engine::splitmix64(s);
+            m[i][j] = symbols[(s >> 33) as usize % symbols.len()];
+        }
+    }
+    for (p, &x) in idx.iter().enumerate() {
+        m[p % rows][p / rows] = symbols[x as usize];
+    }
+    let _ = A::Symbol::default().as_index();
+    lightmotif::seq::StripedSequence::new(m, l).expect("rows * C >= L")
 }
